@@ -138,73 +138,90 @@ Print Assumptions C01_ex_first_minimum.
    buffer -> separator / supplied newline / summary accounting); [program_spec] = stable sort by
    instant of the windowed spec groups of every file, canonically decorated, totals as measures of
    that output.  The component theorems of C02 C03 C01 C06 C13 C19 are used, not re-proved.
+   SECOND STAGE: a source is a text log, a YEAR-LESS text log (C11 assign_years in front of the
+   window and the merge), an accounting-record file (C08: layout detection, ordering core,
+   as_bytes), an event log (C10) or a journal (C09, libsystemd an oracle); [oracles] bundles the
+   timestamp / span / f32 / journal-text / libsystemd oracles.  Statements for mixed-kind inputs.
    ========================================================================================== *)
 From Coq Require Import NArith.
 From S4.Base Require Bytes Chunk.
 From S4.Spec Require LinesSpec WindowSpec.
+From S4.Spec Require RecordsSpec JournalSpec.
 From S4.Model Require Lines Syslines Search Coord Print Summary Gate.
+From S4.Model Require Year Records RecordRender Evtx Journal.
+From S4.Gen Require FixedStructTables.
 From S4.Model Require Import Program.
-From S4.Proofs Require SyslinesProofs PrintStrip SummaryProofs.
+From S4.Proofs Require SyslinesProofs PrintStrip SummaryProofs FixedStructTablesOk YearProofs.
 From S4.Proofs Require Import ProgramProofs ProgramExamples.
 
-(* THE composition theorem: for every timestamp oracle, channel capacity, block size > 0, schedule,
-   options and list of files:
-     domain      every file chronological (C03 binary search, C01 closed form), every message
-                 >= 2 bytes (C03), dt_beg <= dt_end (C13)
-     gate_passed stage 1 (block-zero analysis) accepts every file AT THIS block size (C12: F3a-c)
+(* THE composition theorem: for every oracle record, channel capacity, block size > 0, schedule,
+   options and list of sources of ANY MIX of kinds:
+     domain      dt_beg <= dt_end (C13) and per source (Program.src_ok):
+                 text      chronological (C03 binary search, C01 closed form), messages >= 2 bytes (C03)
+                 year-less the walk dates every message (C11; Issue #245 excluded) and the file is a
+                           text file in the sense above under the INFERRED instants
+                 records   in ANY stored order: score_file picks the file's layout (C08 detection
+                           theorems give conditions), bytes < 256 and f32 texts <= 64 bytes (C08
+                           as_bytes_is_render), 0 <= usec < 10^6 on the kept records
+                 events    in ANY enumeration order, texts newline-terminated
+                 journal   libsystemd contract J1, receive times non-decreasing and positive,
+                           bounds < 2^64 us (C09), texts newline-terminated, merge instants of
+                           the in-window entries do not step back
+     gate_passed stage 1 (block-zero analysis) accepts every TEXT file AT THIS block size (C12: F3a-d)
      complete    the schedule is an execution of the coordinator that ends with every channel closed
    the code-level program prints exactly the specification and tallies exactly its measures *)
-Theorem C01_program_correct : forall dated dtspan cap bs sched o files,
-  (0 < bs)%N -> domain dated dtspan files -> gate_passed dated bs files ->
-  complete dated dtspan cap o files sched ->
-  program_m dated dtspan cap bs sched o files = POk (program_spec dated dtspan o files).
+Theorem C01_program_correct : forall O cap bs sched o files,
+  (0 < bs)%N -> domain O o files -> gate_passed O bs files ->
+  complete O cap o files sched ->
+  program_m O cap bs sched o files = POk (program_spec O o files).
 Proof. exact program_correct. Qed.
 Print Assumptions C01_program_correct.
 
 (* the specification is the print-site model run on the SPEC events (so every C13 / C19 theorem
    about Summary.run speaks about program_spec) ... *)
-Theorem C01_program_spec_is_run : forall dated dtspan, span_ok dtspan -> forall o files,
-  let R := Summary.run (op_cli o) (sources_of files) (spec_events dated dtspan o files) in
-  program_spec dated dtspan o files = (Summary.k_stdout R, Summary.k_total R).
+Theorem C01_program_spec_is_run : forall O o files, domain O o files ->
+  let R := Summary.run (op_cli o) (sources_of files) (spec_events O o files) in
+  program_spec O o files = (Summary.k_stdout R, Summary.k_total R).
 Proof. exact spec_is_run. Qed.
 Print Assumptions C01_program_spec_is_run.
 
 (* ... and with --color never it is plain bytes: per message, per line, file field ++ date field ++
    line; then the separator; then one newline when the file's last message lacks it *)
-Theorem C01_program_spec_plain : forall dated dtspan o files,
-  span_ok dtspan -> Summary.c_colour (op_cli o) = false ->
+Theorem C01_program_spec_plain : forall O o files,
+  domain O o files -> Summary.c_colour (op_cli o) = false ->
   let c := op_cli o in
-  let evs := spec_events dated dtspan o files in
-  fst (program_spec dated dtspan o files) =
+  let evs := spec_events O o files in
+  fst (program_spec O o files) =
   Print.obs (render_bytes c (Summary.popt_of c (sources_of files) evs) evs).
 Proof. exact spec_stdout_plain. Qed.
 Print Assumptions C01_program_spec_plain.
 
 (* C12 at program level: block-size independence of the WHOLE output, for the block sizes at which
    stage 1 accepts the files *)
-Theorem C01_program_bs_independent : forall dated dtspan cap bs1 bs2 sched o files,
-  (0 < bs1)%N -> (0 < bs2)%N -> domain dated dtspan files ->
-  gate_passed dated bs1 files -> gate_passed dated bs2 files ->
-  complete dated dtspan cap o files sched ->
-  program_m dated dtspan cap bs1 sched o files = program_m dated dtspan cap bs2 sched o files.
+Theorem C01_program_bs_independent : forall O cap bs1 bs2 sched o files,
+  (0 < bs1)%N -> (0 < bs2)%N -> domain O o files ->
+  gate_passed O bs1 files -> gate_passed O bs2 files ->
+  complete O cap o files sched ->
+  program_m O cap bs1 sched o files = program_m O cap bs2 sched o files.
 Proof. exact program_bs_independent. Qed.
 Print Assumptions C01_program_bs_independent.
 
 (* C19 at program level: the totals are measures of the output *)
-Theorem C01_program_total_bytes : forall dated dtspan, span_ok dtspan -> forall o files,
+Theorem C01_program_total_bytes : forall O o files, domain O o files ->
   Summary.c_summary (op_cli o) = true ->
-  let r := program_spec dated dtspan o files in
+  let r := program_spec O o files in
   Summary.u_bytes (snd r) = Print.blen (Print.payload (fst r)) /\
   (Summary.c_colour (op_cli o) = false -> forall g, Summary.u_bytes (snd r) = Print.blen (Print.concr g (fst r))).
 Proof. exact program_total_bytes. Qed.
 Print Assumptions C01_program_total_bytes.
 
-Theorem C01_program_counters : forall dated dtspan o files, Summary.c_summary (op_cli o) = true ->
-  let evs := spec_events dated dtspan o files in
-  let t := snd (program_spec dated dtspan o files) in
-  Summary.u_sys t = N.of_nat (length evs) /\
-  Summary.u_lines t = N.of_nat (length (concat (map (fun e => Print.m_lines (Summary.e_msg e)) evs))) /\
-  Summary.u_fixed t = 0%N /\ Summary.u_evtx t = 0%N /\ Summary.u_journal t = 0%N /\
+Theorem C01_program_counters : forall O o files, Summary.c_summary (op_cli o) = true ->
+  let evs := spec_events O o files in
+  let t := snd (program_spec O o files) in
+  Summary.u_sys t = count_of Print.KSys evs /\ Summary.u_fixed t = count_of Print.KFixed evs /\
+  Summary.u_evtx t = count_of Print.KEvtx evs /\ Summary.u_journal t = count_of Print.KJournal evs /\
+  Summary.u_lines t = N.of_nat (length (concat (map (fun e => Print.m_lines (Summary.e_msg e))
+                                 (filter (fun e => kind_eqb (Print.m_kind (Summary.e_msg e)) Print.KSys) evs)))) /\
   SummaryProofs.is_min (Summary.u_first t) (map ev_t evs) /\
   SummaryProofs.is_max (Summary.u_last t) (map ev_t evs).
 Proof. exact program_counters. Qed.
@@ -213,42 +230,44 @@ Print Assumptions C01_program_counters.
 (* C13 at program level: deleting the file field, the date field and the separator from the
    decorated output leaves the output of the undecorated invocation; with colour on, after
    deleting the SGR sequences *)
-Theorem C01_program_strip : forall dated dtspan, span_ok dtspan -> forall o files,
+Theorem C01_program_strip : forall O o files, domain O o files ->
   let c := op_cli o in
-  let evs := spec_events dated dtspan o files in
+  let evs := spec_events O o files in
   Print.strip_msgs (Summary.shape_of c (Summary.popt_of c (sources_of files) evs) evs)
-                   (Print.payload (fst (program_spec dated dtspan o files)))
-  = Some (Print.payload (fst (program_spec dated dtspan (undecorated_opts o) files))).
+                   (Print.payload (fst (program_spec O o files)))
+  = Some (Print.payload (fst (program_spec O (undecorated_opts o) files))).
 Proof. exact program_strip. Qed.
 Print Assumptions C01_program_strip.
 
-Theorem C01_program_strip_sgr : forall dated dtspan o files g, PrintStrip.sgr_ok g ->
-  PrintStrip.no_esc (Print.payload (fst (program_spec dated dtspan o files))) ->
-  Print.strip_sgr (Print.concr g (fst (program_spec dated dtspan o files))) =
-  Print.payload (fst (program_spec dated dtspan o files)).
+Theorem C01_program_strip_sgr : forall O o files g, PrintStrip.sgr_ok g ->
+  PrintStrip.no_esc (Print.payload (fst (program_spec O o files))) ->
+  Print.strip_sgr (Print.concr g (fst (program_spec O o files))) =
+  Print.payload (fst (program_spec O o files)).
 Proof. exact program_strip_sgr. Qed.
 Print Assumptions C01_program_strip_sgr.
 
 (* the same identities for what the CODE-LEVEL model prints, at any block size under any complete schedule *)
-Theorem C01_program_m_totals : forall dated dtspan cap bs sched o files out tot,
-  (0 < bs)%N -> domain dated dtspan files -> gate_passed dated bs files ->
-  complete dated dtspan cap o files sched ->
-  program_m dated dtspan cap bs sched o files = POk (out, tot) ->
+Theorem C01_program_m_totals : forall O cap bs sched o files out tot,
+  (0 < bs)%N -> domain O o files -> gate_passed O bs files ->
+  complete O cap o files sched ->
+  program_m O cap bs sched o files = POk (out, tot) ->
   Summary.c_summary (op_cli o) = true ->
+  let evs := spec_events O o files in
   Summary.u_bytes tot = Print.blen (Print.payload out) /\
   (Summary.c_colour (op_cli o) = false -> forall g, Summary.u_bytes tot = Print.blen (Print.concr g out)) /\
-  Summary.u_sys tot = N.of_nat (length (spec_events dated dtspan o files)).
+  Summary.u_sys tot = count_of Print.KSys evs /\ Summary.u_fixed tot = count_of Print.KFixed evs /\
+  Summary.u_evtx tot = count_of Print.KEvtx evs /\ Summary.u_journal tot = count_of Print.KJournal evs.
 Proof. exact program_m_totals. Qed.
 Print Assumptions C01_program_m_totals.
 
-Theorem C01_program_m_strip : forall dated dtspan cap bs sched sched0 o files out tot out0 tot0,
-  (0 < bs)%N -> domain dated dtspan files -> gate_passed dated bs files ->
-  complete dated dtspan cap o files sched ->
-  complete dated dtspan cap (undecorated_opts o) files sched0 ->
-  program_m dated dtspan cap bs sched o files = POk (out, tot) ->
-  program_m dated dtspan cap bs sched0 (undecorated_opts o) files = POk (out0, tot0) ->
+Theorem C01_program_m_strip : forall O cap bs sched sched0 o files out tot out0 tot0,
+  (0 < bs)%N -> domain O o files -> gate_passed O bs files ->
+  complete O cap o files sched ->
+  complete O cap (undecorated_opts o) files sched0 ->
+  program_m O cap bs sched o files = POk (out, tot) ->
+  program_m O cap bs sched0 (undecorated_opts o) files = POk (out0, tot0) ->
   let c := op_cli o in
-  let evs := spec_events dated dtspan o files in
+  let evs := spec_events O o files in
   Print.strip_msgs (Summary.shape_of c (Summary.popt_of c (sources_of files) evs) evs) (Print.payload out)
   = Some (Print.payload out0).
 Proof. exact program_m_strip. Qed.
@@ -326,19 +345,19 @@ Print Assumptions C01_adapter_print_site.
    cuts every file, -n -w, a date field, a separator, --summary; block sizes 3 and 64; two
    different complete schedules (capacity 1 lazy workers, capacity 5 eager workers) ---- *)
 Example C01_program_example_domain :
-  domain dated_ex dtspan_ex files_ex /\
-  gate_passed dated_ex 3 files_ex /\ gate_passed dated_ex 64 files_ex /\
-  complete dated_ex dtspan_ex 1 opts_ex files_ex sched_lazy /\
-  complete dated_ex dtspan_ex 5 opts_ex files_ex sched_eager /\
+  domain O_ex opts_ex files_ex /\
+  gate_passed O_ex 3 files_ex /\ gate_passed O_ex 64 files_ex /\
+  complete O_ex 1 opts_ex files_ex sched_lazy /\
+  complete O_ex 5 opts_ex files_ex sched_eager /\
   sched_lazy <> sched_eager.
 Proof. exact ex_domain. Qed.
 Print Assumptions C01_program_example_domain.
 
 Example C01_program_example :
-  program_m dated_ex dtspan_ex 1 3 sched_lazy opts_ex files_ex = POk (program_spec dated_ex dtspan_ex opts_ex files_ex) /\
-  program_m dated_ex dtspan_ex 5 64 sched_eager opts_ex files_ex = POk (program_spec dated_ex dtspan_ex opts_ex files_ex) /\
-  fst (program_spec dated_ex dtspan_ex opts_ex files_ex) = Print.obs expected_ex /\
-  let t := snd (program_spec dated_ex dtspan_ex opts_ex files_ex) in
+  program_m O_ex 1 3 sched_lazy opts_ex files_ex = POk (program_spec O_ex opts_ex files_ex) /\
+  program_m O_ex 5 64 sched_eager opts_ex files_ex = POk (program_spec O_ex opts_ex files_ex) /\
+  fst (program_spec O_ex opts_ex files_ex) = Print.obs expected_ex /\
+  let t := snd (program_spec O_ex opts_ex files_ex) in
   Summary.u_bytes t = 68%N /\ Summary.u_lines t = 7%N /\ Summary.u_sys t = 6%N /\
   Summary.u_first t = Some 2000000000%Z /\ Summary.u_last t = Some 4000000000%Z.
 Proof. exact ex_program. Qed.
@@ -347,7 +366,7 @@ Print Assumptions C01_program_example.
 (* a file that stage 1 rejects sends no message: outside gate_passed *)
 Example C01_program_example_gate_rejects :
   Gate.gate dated_ex 64 f_small = Gate.FileErrTooSmall /\
-  exists out t, program_m dated_ex dtspan_ex 1 64 [Coord.Send 0; Coord.Recv 0; Coord.Send 0; Coord.Recv 0]
+  exists out t, program_m O_ex 1 64 [Coord.Send 0; Coord.Recv 0; Coord.Send 0; Coord.Recv 0]
                           (mkOptions cli_ex None None) files_small = POk (out, t) /\ out = [].
 Proof. exact ex_gate_rejects. Qed.
 Print Assumptions C01_program_example_gate_rejects.
@@ -357,26 +376,26 @@ Print Assumptions C01_program_example_gate_rejects.
    file order, the specification the sorted order *)
 Theorem C01_program_unsorted_refuted :
   (file_chronological dated_ex f_uns -> False) /\
-  span_ok dtspan_ex /\ file_msgs_2bytes dated_ex f_uns /\ gate_passed dated_ex 64 files_uns /\
-  complete dated_ex dtspan_ex 1 opts_plain files_uns sched_uns /\
-  exists out t, program_m dated_ex dtspan_ex 1 64 sched_uns opts_plain files_uns = POk (out, t) /\
+  span_ok dtspan_ex /\ file_msgs_2bytes dated_ex f_uns /\ gate_passed O_ex 64 files_uns /\
+  complete O_ex 1 opts_plain files_uns sched_uns /\
+  exists out t, program_m O_ex 1 64 sched_uns opts_plain files_uns = POk (out, t) /\
                 Print.payload out = f_uns /\
-                Print.payload (fst (program_spec dated_ex dtspan_ex opts_plain files_uns)) = sorted_uns /\
-                program_m dated_ex dtspan_ex 1 64 sched_uns opts_plain files_uns
-                <> POk (program_spec dated_ex dtspan_ex opts_plain files_uns).
+                Print.payload (fst (program_spec O_ex opts_plain files_uns)) = sorted_uns /\
+                program_m O_ex 1 64 sched_uns opts_plain files_uns
+                <> POk (program_spec O_ex opts_plain files_uns).
 Proof. exact (conj ex_chronological_needed ex_unsorted_refuted). Qed.
 Print Assumptions C01_program_unsorted_refuted.
 
 (* `gate_passed`: a 3-byte file is in the domain, its message is in the specification, stage 1
    rejects it at block size 64 (FileErrTooSmall) and the program prints nothing *)
 Theorem C01_program_gate_needed :
-  domain dated_ex dtspan_ex files_small /\
+  domain O_ex (mkOptions cli_ex None None) files_small /\
   Gate.gate dated_ex 64 f_small <> Gate.FileOk /\
-  complete dated_ex dtspan_ex 1 (mkOptions cli_ex None None) files_small
+  complete O_ex 1 (mkOptions cli_ex None None) files_small
            [Coord.Send 0; Coord.Recv 0; Coord.Send 0; Coord.Recv 0; Coord.Print; Coord.Send 0; Coord.Recv 0] /\
-  length (spec_events dated_ex dtspan_ex (mkOptions cli_ex None None) files_small) = 1%nat /\
-  program_m dated_ex dtspan_ex 1 64 [Coord.Send 0; Coord.Recv 0; Coord.Send 0; Coord.Recv 0]
-            (mkOptions cli_ex None None) files_small <> POk (program_spec dated_ex dtspan_ex (mkOptions cli_ex None None) files_small).
+  length (spec_events O_ex (mkOptions cli_ex None None) files_small) = 1%nat /\
+  program_m O_ex 1 64 [Coord.Send 0; Coord.Recv 0; Coord.Send 0; Coord.Recv 0]
+            (mkOptions cli_ex None None) files_small <> POk (program_spec O_ex (mkOptions cli_ex None None) files_small).
 Proof. exact ex_gate_needed. Qed.
 Print Assumptions C01_program_gate_needed.
 
@@ -385,9 +404,130 @@ Print Assumptions C01_program_gate_needed.
    "BeforeRange ... unexpected" error exit, under every schedule; the specification prints the
    later message (C03_bsearch_len1_refuted, at program level) *)
 Theorem C01_program_len1_refuted :
-  file_chronological dated_nl f_len1 /\ span_ok dtspan_ex /\ gate_passed dated_nl 64 files_len1 /\
+  file_chronological dated_nl f_len1 /\ span_ok dtspan_ex /\ gate_passed O_nl 64 files_len1 /\
   (file_msgs_2bytes dated_nl f_len1 -> False) /\
-  Print.payload (fst (program_spec dated_nl dtspan_ex opts_len1 files_len1)) = len1_expected /\
-  forall sched, program_m dated_nl dtspan_ex 1 64 sched opts_len1 files_len1 = PWorker 0 (GErr 3).
+  Print.payload (fst (program_spec O_nl opts_len1 files_len1)) = len1_expected /\
+  forall sched, program_m O_nl 1 64 sched opts_len1 files_len1 = PWorker 0 (GErr 3).
 Proof. exact ex_len1_refuted. Qed.
 Print Assumptions C01_program_len1_refuted.
+
+(* ==========================================================================================
+   SECOND STAGE: the other source kinds
+   ========================================================================================== *)
+
+(* accounting records: the worker (score_file, preprocess_timevalues + process_entry_at loop keyed
+   (time value, offset), 0xFF entries dropped, FixedStruct::as_bytes into the 1040-byte buffer)
+   sends exactly: the non-null constructible in-window records, stable-sorted by time value, each
+   rendered in the file's layout (C08 records_sent_correct + as_bytes_is_render) ... *)
+Theorem C01_adapter_records_worker : forall O o hint lname (file : Bytes.bytes) pf,
+  pf_kind pf = KRecords hint lname -> pf_data pf = file -> src_ok O o pf ->
+  records_worker O (op_after o) (op_before o) hint file = (records_spec O (op_after o) (op_before o) lname file, GOk).
+Proof. exact records_worker_correct. Qed.
+Print Assumptions C01_adapter_records_worker.
+
+(* ... whose instants do not step back (what the merge's closed form needs): the time value of the
+   i-th entry is the decode of its own slice, and for valid timevals the order of the time values
+   is the order of the instants *)
+Theorem C01_adapter_records_sorted : forall O o hint lname pf i,
+  pf_kind pf = KRecords hint lname -> src_ok O o pf ->
+  Sorted.StronglySorted Z.le (map ev_t (mk_events i (records_spec O (op_after o) (op_before o) lname (pf_data pf)))).
+Proof. exact records_spec_sorted. Qed.
+Print Assumptions C01_adapter_records_sorted.
+
+(* the composed model's detection is C08's `detect` *)
+Theorem C01_adapter_detect : forall hint file,
+  p_detect hint file = FixedStructTablesOk.detect LayoutDetect.no_mem hint file.
+Proof. exact p_detect_is_detect. Qed.
+Print Assumptions C01_adapter_detect.
+
+(* event logs (C10 evtx_out_correct): any enumeration order, undecodable records in between *)
+Theorem C01_adapter_evtx_worker : forall O a b recs, evtx_worker O a b recs = (evtx_spec O a b recs, GOk).
+Proof. exact evtx_worker_correct. Qed.
+Print Assumptions C01_adapter_evtx_worker.
+
+Theorem C01_adapter_evtx_sorted : forall O a b recs i,
+  Sorted.StronglySorted Z.le (map ev_t (mk_events i (evtx_spec O a b recs))).
+Proof. exact evtx_spec_sorted. Qed.
+Print Assumptions C01_adapter_evtx_sorted.
+
+(* journals (C09 journal_out_correct): the in-window entries, journal order *)
+Theorem C01_adapter_journal_worker : forall O o j pf, pf_kind pf = KJournalFile j -> src_ok O o pf ->
+  journal_worker O (op_after o) (op_before o) j = (journal_spec O (op_after o) (op_before o) j, GOk).
+Proof. exact journal_worker_correct. Qed.
+Print Assumptions C01_adapter_journal_worker.
+
+(* the printer's preconditions for the messages of these kinds: an event / entry text that ends
+   with a newline is, line by line, what print_evtx_* / print_journalentry_* loop over *)
+Theorem C01_adapter_nl_split_lines : forall (t : Bytes.bytes), t = [] \/ (exists p, t = p ++ [10%N]) ->
+  Print.nl_split [] t = LinesSpec.lines t.
+Proof.
+  exact (fun t T => eq_trans (nl_split_lines t T [])
+                             (match LinesSpec.lines t as l return match l with [] => [] | h :: r => (rev [] ++ h) :: r end = l
+                              with [] => eq_refl | _ :: _ => eq_refl end)).
+Qed.
+Print Assumptions C01_adapter_nl_split_lines.
+
+(* one worker of ANY kind: what it sends is what the specification lists for that source (text
+   kinds: up to the split of lines into block parts), and every spec source is chronological *)
+Theorem C01_adapter_worker_any_kind : forall O bs o i pf, (0 < bs)%N -> span_ok (o_dtspan O) -> src_ok O o pf ->
+  gate_passed O bs [pf] ->
+  exists out, worker_out O bs o pf = (out, GOk) /\
+              Forall2 ev_sim (mk_events i out) (spec_file_events O o i pf).
+Proof. exact worker_correct. Qed.
+Print Assumptions C01_adapter_worker_any_kind.
+
+Theorem C01_adapter_source_sorted : forall O o i pf, src_ok O o pf ->
+  Sorted.StronglySorted Z.le (map ev_t (spec_file_events O o i pf)).
+Proof. exact spec_source_sorted. Qed.
+Print Assumptions C01_adapter_source_sorted.
+
+(* YEAR-LESS text logs (C11's clause "the datetime window and cross-file merge use these inferred
+   dates"): under the derived oracle the spec groups are the groups found with "a year-less
+   pattern matches the line", and their instants are, message by message, those assign_years
+   infers from the modification time — when equal head lines do not occur twice ... *)
+Theorem C01_yearless_instants : forall O off mtime (f : Chunk.file) ys,
+  Year.assign_years 2 off (Year.year_of_seconds off mtime) (yl_msgs O f) = Some ys ->
+  NoDup (yl_heads O f) ->
+  yl_table O off mtime f = Some (combine (yl_heads O f) (map snd ys)) /\
+  map snd (LinesSpec.syslines (yl_dated O (combine (yl_heads O f) (map snd ys))) f) = map snd (LinesSpec.syslines (ydated0 O) f) /\
+  map fst (LinesSpec.syslines (yl_dated O (combine (yl_heads O f) (map snd ys))) f) = map snd ys.
+Proof. exact yearless_instants. Qed.
+Print Assumptions C01_yearless_instants.
+
+(* ... and, with C11's theorem 5, they are the TRUE instants under C11's gap hypothesis *)
+Theorem C01_yearless_true_instants : forall O off mtime (f : Chunk.file) (tm : list (Z * Year.ymsg)),
+  YearProofs.seq_ok off tm -> map snd tm = yl_msgs O f ->
+  Year.year_of_seconds off mtime = fst (last tm (0%Z, Year.mkMsg 0 0 0)) ->
+  NoDup (yl_heads O f) ->
+  exists tab, yl_table O off mtime f = Some tab /\
+    map fst (LinesSpec.syslines (yl_dated O tab) f) = map (YearProofs.instant_of off) tm.
+Proof. exact yearless_true_instants. Qed.
+Print Assumptions C01_yearless_true_instants.
+
+(* ---- the hypotheses for a MIXED-KIND input are satisfiable: a text file without final newline, a
+   lastlog file of two records with equal times, an event log enumerated out of time order with an
+   undecodable record, a journal with equal receive times, a streamed year-less log crossing a
+   year boundary; records, an event and two journal entries tie: source order decides ---- *)
+Example C01_program_example_mixed_domain :
+  domain O_ex opts_mx files_mx /\ gate_passed O_ex 64 files_mx /\ gate_passed O_ex 8 files_mx /\
+  complete O_ex 2 opts_mx files_mx sched_mx.
+Proof. exact ex_mixed_domain. Qed.
+Print Assumptions C01_program_example_mixed_domain.
+
+Example C01_program_example_mixed :
+  program_m O_ex 2 64 sched_mx opts_mx files_mx = POk (program_spec O_ex opts_mx files_mx) /\
+  program_m O_ex 2 8 sched_mx opts_mx files_mx = POk (program_spec O_ex opts_mx files_mx) /\
+  fst (program_spec O_ex opts_mx files_mx) = Print.obs expected_mx /\
+  let t := snd (program_spec O_ex opts_mx files_mx) in
+  Summary.u_bytes t = Print.blen expected_mx /\ Summary.u_sys t = 3%N /\ Summary.u_fixed t = 2%N /\
+  Summary.u_evtx t = 2%N /\ Summary.u_journal t = 3%N /\ Summary.u_lines t = 4%N /\
+  Summary.u_first t = Some 2000000000%Z /\ Summary.u_last t = Some (T0 * 1000000000 + 5)%Z.
+Proof. exact ex_mixed_program. Qed.
+Print Assumptions C01_program_example_mixed.
+
+Example C01_program_example_yearless :
+  NoDup (yl_heads O_ex fy) /\
+  Year.assign_years 2 0 (Year.year_of_seconds 0 mtime_mx) (yl_msgs O_ex fy)
+  = Some [(2020, 1607472000000000000); (2021, 1609545600000000000)]%Z.
+Proof. exact ex_yearless. Qed.
+Print Assumptions C01_program_example_yearless.
